@@ -1010,6 +1010,80 @@ def rule_no_pruning(chk, ci, concrete):
     chk.floor('conditions controlling candidate examination', n, 11)
 
 
+def rule_subcell_radius(chk):
+    """ExtendedSpatialHashNNPS visits a sub-cell when it lies within H sub-cells of the query on every axis; H*h_sub must cover the largest
+    cut-off any pair (query, particle of the sub-cell) can have: radius_scale*max(h_query, h_max of the sub-cell)"""
+    from verif_static import symb as S
+    rel = 'pysph/base/spatial_hash_nnps.pyx'
+    t = M.cy(rel)
+    cls = M.find_class(t, 'ExtendedSpatialHashNNPS')
+    fn = M.find_func(cls, '_neighbor_boxes')
+    who = 'ExtendedSpatialHashNNPS._neighbor_boxes'
+    M.set_parents(fn)
+    ceils = [c for c in M.calls(fn) if M.call_name(c) == 'ceil' and len(c.args) == 1 and isinstance(c.args[0], ast.BinOp) and isinstance(c.args[0].op, ast.Div)
+             and compact(c.args[0].right) == 'self.h_sub']
+    if len(ceils) != 1:
+        raise AnalysisError('%s: the `ceil(<radius>/self.h_sub)` computing the number of sub-cells to visit vanished' % who)
+    st = ceils[0]
+    while not isinstance(st, ast.stmt):
+        st = st.parent
+    blk = st.parent.body if hasattr(st.parent, 'body') and st in st.parent.body else None
+    if blk is None:
+        raise AnalysisError('%s: cannot locate the block computing the sub-cell radius' % who)
+    pre = [x for x in blk[:blk.index(st)] if isinstance(x, (ast.Assign, ast.AnnAssign, ast.AugAssign))]
+    ctx = S.Ctx(seconds=20)
+    ctx.positive.add('self.radius_scale')
+    try:
+        ev = S.Evaluator(ctx, ast.FunctionDef(name='f', args=fn.args, body=pre, decorator_list=[]))
+        ev.run()
+        got = ev.ev(ceils[0].args[0].left)
+        rs = ctx.var('self.radius_scale')
+        want = ctx.mul(rs, ctx.fn('max', [ctx.var('cell.h_max'), ctx.var('h')]))
+        ok = ctx.prove_zero(got - want)[0]
+        chk.decide(ok, 'subcell-search-radius', 'ExtendedSpatialHashNNPS', node=st, file=rel, func=who,
+                   detail_bad='the number of sub-cells searched is ceil(%s / h_sub); it must be ceil(radius_scale*max(cell.h_max, h) / h_sub): with a smaller radius a query whose own '
+                              'h is the larger one misses sub-cells that hold neighbours within radius_scale*h' % compact(ceils[0].args[0].left),
+                   detail_ok='ceil(radius_scale*max(cell.h_max, h)/h_sub)')
+    except (S.Unsupported, S.Budget) as e:
+        chk.undecided('subcell-search-radius', 'ExtendedSpatialHashNNPS', node=st, file=rel, func=who, detail=str(e))
+
+
+def rule_bounds(chk):
+    """NNPS._compute_bounds: the box handed to the binning structures strictly contains every particle on both sides of every axis
+    (cell counts are ceil(extent/cell_size) and cell indices floor((x - xmin)/cell_size): a particle exactly on an un-padded upper
+    face gets the index one past the last cell)"""
+    rel = 'pysph/base/nnps_base.pyx'
+    t = M.cy(rel)
+    fn = M.find_func(M.find_class(t, 'NNPS'), '_compute_bounds')
+    who = 'NNPS._compute_bounds'
+    M.set_parents(fn)
+    loops = [l for l in fn.body if isinstance(l, ast.For)]
+    if not loops:
+        raise AnalysisError('%s: the loop gathering the extent of every array vanished' % who)
+    gather = loops[0]
+    for ax in 'xyz':
+        for side, fname, opk in (('min', 'fmin', ast.Sub), ('max', 'fmax', ast.Add)):
+            v = ax + side
+            # gathered over every array: v = fmin/fmax(<array extreme>, v)
+            g = [a for a in ast.walk(gather) if isinstance(a, ast.Assign) and compact(a.targets[0]) == v and isinstance(a.value, ast.Call)
+                 and M.call_name(a.value) in (fname, side) and v in [compact(x) for x in a.value.args]]
+            chk.decide(bool(g), 'bounds-contain-particles', '%s:gathered' % v, node=gather, file=rel, func=who,
+                       detail_bad='%s is not the running %s over every particle array' % (v, side), detail_ok='%s = %s(<array %simum>, %s)' % (v, fname, side, v))
+            # widened unconditionally after the gather loop by a positive amount
+            wid = []
+            for st in fn.body:
+                if st.lineno <= gather.lineno:
+                    continue
+                if isinstance(st, ast.AugAssign) and compact(st.target) == v and isinstance(st.op, opk):
+                    wid.append(st)
+                elif isinstance(st, ast.Assign) and len(st.targets) == 1 and compact(st.targets[0]) == v and isinstance(st.value, ast.BinOp) and isinstance(st.value.op, opk) \
+                        and compact(st.value.left) == v:
+                    wid.append(st)
+            chk.decide(bool(wid), 'bounds-contain-particles', '%s:padded' % v, node=wid[0] if wid else fn, file=rel, func=who,
+                       detail_bad='%s is not moved outwards after the extent has been gathered: particles exactly on that face of the bounding box fall outside the last / first cell '
+                                  '(index = number of cells) for round geometries' % v, detail_ok='%s widened by %s' % (v, compact(wid[0].value) if wid else ''))
+
+
 def rule_octree(chk):
     """tree searches prune a node only when neither the query's radius nor the largest source radius in the node reaches it"""
     from verif_static import symb as S
@@ -1398,6 +1472,8 @@ def main(chk):
     rule_cell_size(chk)
     rule_no_pruning(chk, ci, concrete)
     rule_octree(chk)
+    rule_subcell_radius(chk)
+    rule_bounds(chk)
     rule_narrowing(chk)
     rule_cxx_headers(chk)
     # only valid indices, no duplicates: a sort of the result must touch exactly the slice this query appended (rule shared with C05)
